@@ -10,6 +10,7 @@ import (
 	"fmt"
 	"sort"
 	"strings"
+	"time"
 
 	"github.com/ava-labs/avalanchego/database"
 	"github.com/ava-labs/avalanchego/database/memdb"
@@ -25,6 +26,7 @@ import (
 	"github.com/ava-labs/hypersdk/fees"
 	"github.com/ava-labs/hypersdk/genesis"
 	ifees "github.com/ava-labs/hypersdk/internal/fees"
+	"github.com/ava-labs/hypersdk/internal/mempool"
 	"github.com/ava-labs/hypersdk/internal/workers"
 	"github.com/ava-labs/hypersdk/state"
 	"github.com/ava-labs/hypersdk/state/balance"
@@ -536,4 +538,35 @@ func NewEnvLite(rules *genesis.Rules, bh chain.BalanceHandler) *Env {
 	}
 	e.RF = &genesis.ImmutableRuleFactory{Rules: e.Rules}
 	return e
+}
+
+// NewBuilder builds a real chain.Builder on this environment.
+func (e *Env) NewBuilder(mp chain.Mempool, vw chain.ValidityWindow, cores int, targetTxsSize int) *chain.Builder {
+	cfg := chain.NewDefaultConfig()
+	cfg.TransactionExecutionCores = cores
+	cfg.TargetBuildDuration = time.Hour // the loop ends when the mempool is drained or the block is full
+	if targetTxsSize > 0 {
+		cfg.TargetTxsSize = targetTxsSize
+	}
+	return chain.NewBuilder(trace.Noop, e.RF, logging.NoLog{}, e.MM, e.BH, mp, vw, e.Metrics, cfg)
+}
+
+// NewMempool returns a real mempool.
+func NewMempool(maxSize, maxSponsor int) *mempool.Mempool[*chain.Transaction] {
+	return mempool.New[*chain.Transaction](trace.Noop, maxSize, maxSponsor)
+}
+
+// NewPreExecutor returns the real admission pre-executor.
+func (e *Env) NewPreExecutor(vw chain.ValidityWindow) *chain.PreExecutor {
+	return chain.NewPreExecutor(e.RF, vw, e.MM, e.BH)
+}
+
+// ParentOutput wraps the environment's database as the output of a parent block with the
+// given header (for Builder.BuildBlock).
+func (e *Env) ParentOutput(height uint64, ts int64) *chain.OutputBlock {
+	root, err := e.DB.GetMerkleRoot(Ctx)
+	must(err)
+	sb, err := chain.NewStatelessBlock(ids.Empty, ts, height, nil, root, nil)
+	must(err)
+	return &chain.OutputBlock{ExecutionBlock: chain.NewExecutionBlock(sb), View: e.DB}
 }
